@@ -48,7 +48,7 @@ func main() {
 		sort.Strings(ids)
 		for _, id := range ids {
 			p := registry[id]
-			fmt.Printf("### %s\n\n*Engines:* %s\n\n*Decided:* %s\n\n*Not decided:* %s\n\n", id, p.Engines, p.Decided, p.NotDecided)
+			fmt.Printf("### %s\n\n*Engines:* %s\n\n*Decided:* %s\n\n*Not decided:* %s\n\n", id, p.Engines, p.Decided+round10Decided[p.ID], p.NotDecided)
 		}
 		return
 	}
